@@ -396,6 +396,8 @@ func localHasType(fn *ast.FuncDecl, v, typ string) bool {
 type alias struct {
 	fields map[string]bool
 	typ    ast.Expr // static type of the variable when known
+	imm    bool     // holds only copies of allow-listed pointers to immutable pointees (immutablePointees "<Class>.<field>"):
+	// READING through it needs no lock (the field itself was read, under the lock, when it was bound); writing through it is still a Write
 }
 
 type pathT struct {
@@ -915,7 +917,19 @@ func (w *walker) bind(v string, e ast.Expr, declared ast.Expr) {
 		if t == nil {
 			t = declared
 		}
+		_, existed := w.aliases[v]
 		w.addAlias(v, fs, t)
+		imm := false
+		if sel, ok := e.(*ast.SelectorExpr); ok {
+			if id, ok := sel.X.(*ast.Ident); ok && id.Name == w.recv {
+				_, imm = immutablePointees[w.ci.name+"."+sel.Sel.Name]
+			}
+		}
+		if existed {
+			w.aliases[v].imm = w.aliases[v].imm && imm
+		} else {
+			w.aliases[v].imm = imm
+		}
 	}
 	// freshly constructed child: &T{..., parent: recv, ...}
 	if u, ok := e.(*ast.UnaryExpr); ok && u.Op == token.AND {
@@ -940,6 +954,11 @@ func (w *walker) leakCheck(r ast.Expr) []event {
 			if _, ok := immutablePointees[w.ci.name+"."+sel.Sel.Name]; ok {
 				return nil
 			}
+		}
+	}
+	if id, ok := r.(*ast.Ident); ok {
+		if a, ok := w.aliases[id.Name]; ok && a.imm {
+			return nil
 		}
 	}
 	fs, t, ok := w.refOf(r)
@@ -1078,6 +1097,9 @@ func (w *walker) expr(e ast.Expr) []event {
 		return nil
 	case *ast.Ident:
 		if a, ok := w.aliases[e.Name]; ok {
+			if a.imm {
+				return nil
+			}
 			return w.readFields(a.fields, e)
 		}
 		return nil
